@@ -14,7 +14,8 @@ import (
 // synchronisation operations only, which is sufficient provided the code between them is data-race free; this pass
 // runs the same thread bodies - overlapping publish requests, and a publish (plus a second one) overlapping a live
 // reload - as free goroutines in a -race build. bin/check reports a race the detector prints as a violation
-// (key data-race). Nothing is judged here.
+// (key data-race). The deciding step is the exploration; here only the two direct invariants of part (1) are asserted
+// on the executions that happen to run (a failed assertion is a witness against the real code).
 func TestRace(t *testing.T) {
 	if os.Getenv("VERIF_RACE") == "" {
 		t.Skip("race pass only")
@@ -28,30 +29,54 @@ func TestRace(t *testing.T) {
 		for it := 0; it < iterations && time.Now().Before(deadline); it++ {
 			a, err := app.VerifBoot(app.VerifBootOptions{Dir: freshDir("race15"), ConfigText: s.dsl()})
 			if err != nil {
-				t.Fatal(err)
+				t.Logf("side pass ended early, boot: %v", err) // infrastructure, not a verdict
+				return
 			}
 			for i := 0; i < s.Prefill; i++ {
 				a.Store.Enqueue(queue.Envelope{ID: "q" + string(rune('0'+i)), Route: sRouteP, Target: "pull", Payload: []byte("seed")})
 			}
 			var wg sync.WaitGroup
-			for _, q := range s.Reqs {
-				q := q
+			accepted := make([]bool, len(s.Reqs))
+			for i, q := range s.Reqs {
+				i, q := i, q
 				wg.Add(1)
 				go func() {
 					defer wg.Done()
-					do(a.Admin, "POST", q.url(), auditHeaders(policies[0]), q.body())
+					st, _ := do(a.Admin, "POST", q.url(), auditHeaders(policies[0]), q.body())
+					accepted[i] = st >= 200 && st < 300 // one slot per goroutine
 				}()
 			}
 			wg.Wait()
-			queueRows(a)
+			rows := queueRows(a)
 			a.Shutdown()
+			active := 0
+			for _, row := range parseRows(rows) {
+				if row.state == "queued" || row.state == "leased" {
+					active++
+				}
+			}
+			if s.Depth > 0 && active > s.Depth {
+				t.Errorf("%s: %d queued+leased rows above max_depth %d after overlapping publishes: [%s]", s.Name, active, s.Depth, rows)
+			}
+			if !s.Drop {
+				for i, p := range s.Reqs {
+					for j := i + 1; j < len(s.Reqs); j++ {
+						for _, id := range p.IDs {
+							if accepted[i] && accepted[j] && contains(s.Reqs[j].IDs, id) {
+								t.Errorf("%s: overlapping publishes %s and %s both answered 2xx with the same id %q: [%s]", s.Name, p.Name, s.Reqs[j].Name, id, rows)
+							}
+						}
+					}
+				}
+			}
 		}
 	}
 	for _, s := range reloadScenarioSpecs() {
 		for it := 0; it < 6 && time.Now().Before(deadline); it++ {
 			a, err := app.VerifBoot(app.VerifBootOptions{Dir: freshDir("race15"), ConfigText: schedHead + s.Old})
 			if err != nil {
-				t.Fatal(err)
+				t.Logf("side pass ended early, boot: %v", err)
+				return
 			}
 			if s.Warm {
 				q := s.with("warm", "w")
